@@ -461,8 +461,8 @@ func (c *c20Cluster) stepdown() error {
 // ---- requests -------------------------------------------------------------
 
 type c20Step struct {
-	Kind     string `json:"kind"`     // exec execfail qstrong qweak qnone reqw reqs reqmix queued
-	Target   string `json:"target"`   // leader follower nonvoter
+	Kind     string `json:"kind"`   // exec execfail qstrong qweak qnone reqw reqs reqmix queued
+	Target   string `json:"target"` // leader follower nonvoter
 	Redirect bool   `json:"redirect"`
 	Cred     string `json:"cred"` // none wrongpw lacking full exact targetonly
 }
@@ -901,8 +901,8 @@ func c20Steps(kinds, targets, creds []string, redirects []bool) []c20Step {
 
 type c20Hist struct {
 	Section   string    `json:"section"`
-	Stepdowns int       `json:"stepdowns_first"` // leadership moved this many times before the first step
-	Steps     []c20Step `json:"steps"`           // with a stepdown between consecutive steps
+	Stepdowns int       `json:"stepdowns_first"`     // leadership moved this many times before the first step
+	Steps     []c20Step `json:"steps"`               // with a stepdown between consecutive steps
 	OffsetMs  int       `json:"offset_ms,omitempty"` // [move] the request starts this long after the transfer (negative: before)
 }
 
